@@ -164,6 +164,9 @@ func c12Op(g *gen.G, typ byte) drv.Op {
 		case 8:
 			return prop()
 		case 9:
+			if t.Bool(1, 2) {
+				return drv.Op{Kind: "protoname", B: []byte([]string{"MQTT", "mqtt", "Mqtt", "MQTt", "MQIsdp", "MQTT5", "MQT", ""}[t.Int(8)])}
+			}
 			return str("protoname")
 		default:
 			return drv.Op{Kind: "protover", N: uint32(t.Int(256))}
